@@ -4,7 +4,7 @@ SPEC = {
     "coq_targets": ["theories/Snap/Props_C09.vo", "theories/Snap/Cases_C09.vo", "theories/Snap/Findings.vo"],
     "props": "theories/Snap/Props_C09.v",
     "harness": [{"bin": "h_snap_registry", "n": {"quick": 400, "thorough": 12000}, "known_bits": {}}],
-    "rule": "histories over 2 keys x 3 identities x 2 addresses of register(key,identity,lifetime in {0,5,10,..}), clock advance, purge, connect (fresh real gotatun client tunnel + handshake + confirming keepalive), data-in, data-out, timer tick, run against the real IdentityRegistry and the real SnapTunServer (authorisation wrapper answering from the registry at base + virtual time): 15 directed histories (lapse between handshake and first data, shorter re-registration, supersede, identity moved to another key, second client on the same / another address, queued outbound drained after a lapse, ...), all histories of length 1-2 over the 32-event alphabet (thorough; seeded sample in quick) plus all length-3 histories starting with a 5 s registration under key 0 (thorough), sampled histories of length 3-6, random histories of length 6-40; after EVERY event has_authorization(now, id) and has_authorization(base, id) for all identities are compared with the model and with the history-only predicate auth_spec; a case is one history, distinct by its event list",
+    "rule": "histories over 2 keys x 3 identities x 2 addresses of register(key,identity,lifetime in {0,5,10,..}), clock advance, purge, connect (fresh real gotatun client tunnel + handshake + confirming keepalive), data-in, data-out, timer tick, run against the real IdentityRegistry and the real SnapTunServer (authorisation wrapper answering from the registry at base + virtual time): 18 directed histories (lapse between handshake and first data, shorter re-registration, supersede, identity moved to another key, second client on the same / another address, queued outbound drained after a lapse, ...), all histories of length 1-2 over the 32-event alphabet (thorough; seeded sample in quick) plus all length-3 histories starting with a 5 s registration under key 0 (thorough), sampled histories of length 3-6, random histories of length 6-40; after EVERY event has_authorization(now, id) and has_authorization(base, id) for all identities are compared with the model and with the history-only predicate auth_spec; a case is one history, distinct by its event list",
     "assumptions": ["WireGuard (ana-gotatun) is an abstract endpoint: an endpoint created for peer static key X yields a decrypted payload only for datagrams authenticated by X (hypothesis wg_authenticates, satisfied by the toy endpoint)",
                     "the rate limiter is assumed to let packets through (its rejections only drop more)",
                     "timer-driven behaviour of the tunnel (keepalives, expiry after minutes of real time) is not exercised by the correspondence: update_timers is called but no real time passes",
